@@ -171,8 +171,9 @@ Definition st0 (t : Z) (r : iregs) : state IL := @mkst IL t 0 [] r.
 Definition run_ok (fl : flavour) (p : block IL) (flat : list (finstr IL)) (run : Z * iregs * ires * ires) : bool :=
   match run with
   | (t, r, before, after) =>
-      agree (fun s => s) (run_struct IL FUEL Lax p (st0 t r)) before
-      && agree fst (run_flat IL FUEL flat (st0 t r)) after
+      (* nothing to compare (and an expensive model run) when AstVm gave up *)
+      match before with ILimit => true | _ => agree (fun s => s) (run_struct IL FUEL Lax p (st0 t r)) before end
+      && match after with ILimit => true | _ => agree fst (run_flat IL FUEL flat (st0 t r)) after end
   end.
 
 Definition model_of (c : c06case) : bool :=
@@ -197,9 +198,9 @@ Definition diagnose (c : c06case) : N :=
       if negb (wf_prog IL p) then 1%N
       else if negb (list_eqb finstr_eqb (canon (desugar IL fl p)) (canon flat)) then 2%N
       else if negb (forallb (fun run => match run with (t, r, before, _) =>
-                     agree (fun s => s) (run_struct IL FUEL Lax p (st0 t r)) before end) runs) then 3%N
+                     match before with ILimit => true | _ => agree (fun s => s) (run_struct IL FUEL Lax p (st0 t r)) before end end) runs) then 3%N
       else if negb (forallb (fun run => match run with (t, r, _, after) =>
-                     agree fst (run_flat IL FUEL flat (st0 t r)) after end) runs) then 4%N
+                     match after with ILimit => true | _ => agree fst (run_flat IL FUEL flat (st0 t r)) after end end) runs) then 4%N
       else 0%N
   end.
 Definition diagnoses (n : N) (l : list c06case) : list N := map diagnose l.
